@@ -104,6 +104,19 @@ func (c *Check) Under(fn *ssa.Function, rule, label string, m Macros, at ssa.Ins
 	for _, x := range c.extraConds {
 		have[x] = true
 	}
+	// an effect that is itself a call to an in-repository function: what that function requires for its own success
+	// holds for the effect (its writes are undone when it rejects)
+	if call, isCall := at.(*ssa.Call); isCall && !call.Call.IsInvoke() {
+		if g := call.Call.StaticCallee(); g != nil && inTeleport(g) && len(g.Blocks) > 0 && g != fn {
+			var args []*Expr
+			for _, x := range call.Call.Args {
+				args = append(args, a.X.E(x))
+			}
+			for _, sc := range c.P.FA(g).SuccessConds() {
+				have[substParams(sc, args).String()] = true
+			}
+		}
+	}
 	ok := true
 	for _, w := range wants {
 		w = m.X(w)
